@@ -282,7 +282,18 @@ let rec spec_call st i (t : string list) =
   | ["elementf"; xs; idx] ->
     (* functions::element computes the hull of the array entries' bounds (/repo b9ad7d3): min_raw / max_raw *)
     if xs <> "-" then reads st (String.split_on_char ',' xs);
-    decl_int st (-1000) 1000; st.elems <- (vix idx, List.length (vlist xs)) :: st.elems
+    (* the value handle: hull of the entries' bounds, so its magnitude is the largest magnitude among the entries
+       (an empty array still gets int(-1000, 1000)).  It used to be declared as -1000..1000 here, which under-estimated
+       the magnitude and predicted "no panic" for a later mul of the handle whose product leaves i32 (false alarm, VERIF_SEED=3) *)
+    let l = vlist xs in
+    if l = [] then decl_int st (-1000) 1000
+    else begin
+      let lo_of v = match (var st v).iv with Some (lo, _) -> lo | None -> - (var st v).mag
+      and hi_of v = match (var st v).iv with Some (_, hi) -> hi | None -> (var st v).mag in
+      let lo = List.fold_left (fun a v -> min a (lo_of v)) max_int l and hi = List.fold_left (fun a v -> max a (hi_of v)) min_int l in
+      decl_int st (max lo (i32min + 2)) (min hi (i32max - 1))
+    end;
+    st.elems <- (vix idx, List.length (vlist xs)) :: st.elems
   | ["table"; xs; tl] ->
     let n = List.length (vlist xs) in
     if tl <> "-" && List.exists (fun r -> List.length (parse_list r) <> n) (String.split_on_char '|' tl) then cls st "table_arity"
